@@ -168,6 +168,7 @@ class Interp(object):
         self._info = {}
         self.stats = Stats()
         self.path_steps = 0
+        self.charges = []          # value-dependent cost charged on this path: (z3 Int term or int, description)  (psx/numerics.py)
         self.step_limit = None
         self.solver = z3.Solver()
         self.soft_timeout_ms = min(solver_timeout_ms, int(os.environ.get("PSX_SOFT_TIMEOUT_MS", "20000")))
@@ -493,6 +494,7 @@ class Interp(object):
                 self.in_prefix = True
             self.pos = 0
             self.path_steps = 0
+            self.charges = []
             self.step_limit = None
             self._oseq = 0
             self.pc = []
@@ -504,6 +506,7 @@ class Interp(object):
             sstr._fresh[0] = 0
             sstr.BOUND_ORACLE[0] = self.tight_bound
             self.options.pop("fs", None)
+            self.options.pop("approximate_numerics", None)
             self.options.pop("symfiles", None)
             for h in self.path_hooks:
                 h()
